@@ -88,7 +88,9 @@ def xbt_streams(tier, seed, exes):
             return "/nonexistent/" + k
     for fn in _XBT:
         for j in fn(tier, seed, _Exes(exes)):
-            if "exh" not in j.get("args", []) or j.get("env"):
+            # exhaustive streams, and structured streams of configurations that exist for several block types (their
+            # operand generators are seeded independently of the block type; results are compared per input)
+            if "exh" not in j.get("args", []) and "rnd" not in j.get("args", []):
                 continue
             fam = re.sub(r"_(u8|u16|u32|u64)$", "", os.path.basename(j["exe"]))
             key = (fam, tuple("BT" if a in _BT else a for a in j["args"]))
@@ -96,9 +98,10 @@ def xbt_streams(tier, seed, exes):
     jobs = []
     for (fam, args), js in sorted(groups.items()):
         if len(js) >= 2:
-            jobs.append(dict(xbt=[(j["exe"], j["args"]) for j in js], label=f"cross-block-type {fam} {' '.join(args)} x{len(js)}"))
+            jobs.append(dict(xbt=[(j["exe"], j["args"]) for j in js], env=js[0].get("env", {}), label=f"cross-block-type {fam} {' '.join(args)} x{len(js)}"))
     if tier == "quick":
-        jobs = rotate(jobs, seed, 60)
+        rnd = [j for j in jobs if " rnd " in j["label"]]
+        jobs = rotate([j for j in jobs if " rnd " not in j["label"]], seed, 60) + rnd
     return jobs
 
 
